@@ -1,5 +1,6 @@
 // Drives every public read-side entry point over one untrusted input (C03). Never throws.
 #pragma once
+#include "util.hpp"
 #include "libdump.hpp"
 #include <sstream>
 
@@ -17,15 +18,19 @@ inline std::string decoder_ops(const std::string& in) {
     for (int op = 0; op < 11; op++) {
         std::istringstream is(in); std::string r;
         try {
-            CdnsDecoder d(is); bool indef;
+            // on the heap (the driver asks the allocator to fill fresh memory with a fixed byte): whatever a defective decoder reads beyond the buffered
+            // data is the same in every process, so a finding replays; after every call the cursor must not have passed the end of the buffered data
+            std::unique_ptr<CdnsDecoder> dp(new CdnsDecoder(is)); CdnsDecoder& d = *dp; bool indef;
+            auto cursor_ok = [&]() { return PEEK(d, (bool)(o.m_p <= o.m_end), true); };
             switch (op) {
             case 0: d.peek_type(); break; case 1: d.read_unsigned(); break; case 2: d.read_negative(); break; case 3: d.read_integer(); break;
             case 4: d.read_bool(); break; case 5: use(d.read_bytestring()); break; case 6: use(d.read_textstring()); break;
             case 7: d.read_array_start(indef); break; case 8: d.read_map_start(indef); break; case 9: d.read_break(); break; case 10: d.skip_item(); break;
             }
-            for (int i = 0; i < 64; i++) d.skip_item();
+            if (!cursor_ok()) throw std::logic_error("CURSOR");
+            for (int i = 0; i < 64; i++) { d.skip_item(); if (!cursor_ok()) throw std::logic_error("CURSOR"); }
             r = "k";
-        } catch (CdnsDecoderEnd&) { r = "e"; } catch (std::exception&) { r = "x"; }
+        } catch (CdnsDecoderEnd&) { r = "e"; } catch (std::logic_error& le) { r = std::string(le.what()) == "CURSOR" ? "CURSOR-PAST-END" : "x"; } catch (std::exception&) { r = "x"; }
         out += r;
     }
     return out;
@@ -48,7 +53,7 @@ inline void render_block(CdnsBlockRead& b) {
 inline std::string reader_all(const std::string& in, size_t max_blocks = 100000) {
     std::istringstream is(in); std::string r; size_t nb = 0, nrec = 0;
     try {
-        CdnsReader rd(is);
+        std::unique_ptr<CdnsReader> rdp(new CdnsReader(is)); CdnsReader& rd = *rdp;
         use(rd.m_file_preamble.string());
         for (auto& bp : rd.m_file_preamble.m_block_parameters) { use(bp.string()); use(bp.storage_parameters.string()); use(bp.storage_parameters.storage_hints.string()); if (bp.collection_parameters) use(bp.collection_parameters->string()); }
         r = "hdr;";
